@@ -66,6 +66,7 @@ func (o locObs) String() string {
 
 type histRun struct {
 	digitNames bool // issuer names A/B end in "2"/"24"
+	onDisk     map[string]map[string]map[int]bool // work_dir -> location -> versions ever observed in force there
 	h          *Harness
 	w          *World
 	cfg        histCfg
@@ -108,8 +109,39 @@ func (r *histRun) observe(n *hNode) observation {
 			}
 		}
 		obs[l.Name] = o
+		// what was ever observed in force on this work_dir (a disk store outlives the instance)
+		if r.onDisk == nil {
+			r.onDisk = map[string]map[string]map[int]bool{}
+		}
+		if r.onDisk[n.WorkDir] == nil {
+			r.onDisk[n.WorkDir] = map[string]map[int]bool{}
+		}
+		if r.onDisk[n.WorkDir][l.Name] == nil {
+			r.onDisk[n.WorkDir][l.Name] = map[int]bool{}
+		}
+		for _, k := range o.S {
+			r.onDisk[n.WorkDir][l.Name][k] = true
+		}
 	}
 	return obs
+}
+
+// listedOnDisk: does a version that was observed in force on this node's work_dir at some earlier point (possibly by a
+// previous instance) list the certificate? A restarted instance answers from the stored list the moment it learns the
+// location again, and a background refresh may replace that list before the handshake is over: neither the
+// observation before nor the one after the handshake then shows the list that answered.
+func (r *histRun) listedOnDisk(n *hNode, issuer *CA, serial *big.Int) bool {
+	for _, l := range r.locs {
+		if l.Issuer != issuer {
+			continue
+		}
+		for k := range r.onDisk[n.WorkDir][l.Name] {
+			if l.Lists(k, serial) {
+				return true
+			}
+		}
+	}
+	return false
 }
 
 // listed: does any version observed in force, at a location of the certificate's issuer, list serial?
@@ -359,7 +391,7 @@ func runCRLHistory(h *Harness, cfg histCfg) {
 	// motifs: short scripted prefixes that put the system into the states the property is about
 	// (a fault right before a first load, a rejected list followed by an accepted one, ...)
 	var script []func()
-	motif := tp.Weighted(5, 2, 2, 2, 2)
+	motif := tp.Weighted(5, 2, 2, 2, 2, 2)
 	sc["motif"] = motif
 	cdpLocs := []*hLoc{}
 	for _, l := range r.locs {
@@ -410,6 +442,34 @@ func runCRLHistory(h *Harness, cfg histCfg) {
 			func() { setOrigin(ml, oGood, ml.Cur, "") },
 			func() { r.events = append(r.events, "tick"); h.Settle(10*time.Minute + 30*time.Second) },
 			func() { r.handshakeWith(r.nodes[0], ml, "common", 0, "loc", strict, mode) },
+		)
+	case 5: // a background first load overtaken by a handshake that loads a NEWER issue meanwhile
+		// The first handshake finds the origin down (the entry exists, nothing is loaded). The origin recovers with issue
+		// a; the refresh cycle that loads the entry for the first time is served slowly; the origin publishes issue b > a;
+		// a handshake loads b. When the slow download completes, the older issue must not replace the newer one.
+		a, b := 0, 1+tp.Int(2)
+		script = append(script,
+			func() { setOrigin(ml, Pick(tp, oDown, oHTTP500), ml.Cur, "") },
+			func() { r.handshakeWith(mn, ml, "never", 0, "own", strict, mode) },
+			func() {
+				setOrigin(ml, oGood, a, "")
+				ml.SlowFirst, ml.Fetches = 3*time.Second, 0
+				h.S.Run(func(v schedView) bool { return ml.Fetches > 0 }, h.S.Now()+11*time.Minute)
+				r.events = append(r.events, fmt.Sprintf("tick-until-slow-fetch(fetches=%d)", ml.Fetches))
+				setOrigin(ml, oGood, b, "")
+			},
+			func() { r.handshakeWith(mn, ml, "only", b, "own", strict, mode) },
+			func() {
+				before := r.observe(mn)[ml.Name]
+				h.Settle(30 * time.Second)
+				r.events = append(r.events, "advance(30s)")
+				after := r.observe(mn)[ml.Name]
+				h.R.Checks++
+				if len(before.S) == 1 && before.S[0] == b && len(after.S) == 1 && after.S[0] == a {
+					r.viol("C11.superseded-in-force", "older-issue-replaced-newer:"+fetch, "node %s answered from %s.v%d and 30 s later from the older issue v%d, whose slow download had begun before v%d was published: entries the newer list dropped are reported revoked again", mn.Name, ml.Name, b+1, a+1, b+1)
+				}
+			},
+			func() { r.handshakeWith(mn, ml, "only", a, "own", strict, mode) },
 		)
 	case 3: // soundness across a refresh: listed before, newly listed after
 		script = append(script,
@@ -622,7 +682,7 @@ func (r *histRun) handshakeWith(n *hNode, l *hLoc, class string, k int, cdpKind 
 		}
 	}
 	// C11: "revoked" needs a listing in something observed in force
-	if isRevokedErr(hs.Err) && !lb && !la && !ocspRevoked {
+	if isRevokedErr(hs.Err) && !lb && !la && !ocspRevoked && !(n.gen > 0 && r.listedOnDisk(n, issuer, serial)) {
 		r.viol("C11.revoked-unlisted", "revoked-unlisted:"+class, "node %s reported %s serial %s revoked, but no version observed in force (before %v, after %v) lists it", n.Name, issuer.Name, serial.Text(16), before, after)
 	}
 	// C10
